@@ -319,8 +319,11 @@ def run_case(case):
         from harness.impl.c08 import scope_leak_problems
         from harness.gen import faults as F
         f = case['scope']['fault']
-        probs = scope_leak_problems(case['scope']['base'], f, K)
-        return {'obs': [], 'fails': [{'signature': 'C07:scope-leak:%s' % F.site_label(f), 'clause': 'scope-leak', 'what': w}
+        ext = f['kind'] == 'extref'
+        probs = scope_leak_problems(case['scope']['base'], f, K, how='which is not of the form #id' if ext else
+                                    'defined only in another scope')
+        cl = 'foreign-reference' if ext else 'scope-leak'
+        return {'obs': [], 'fails': [{'signature': 'C07:%s:%s' % (cl, F.site_label(f)), 'clause': cl, 'what': w}
                                      for w in probs[:1]]}
     data = case['xml'].encode('utf-8')
     obs = []
